@@ -439,6 +439,16 @@ fn msg_op(send: u32, call: u32, w: BoxedStrategy<Vec<Step>>) -> BoxedStrategy<Cl
     .boxed()
 }
 
+/// a message whose handler obtains a weak handle from its own context and hands it to client 0
+fn export_weak_op() -> BoxedStrategy<ClientOp> {
+    (h(), prop_oneof![Just(HKind::WeakAddr), Just(HKind::WeakSender), Just(HKind::WeakCaller)], any::<bool>())
+        .prop_map(|(h, k, call)| {
+            let work = vec![Step::ExportWeak(k)];
+            if call { ClientOp::Call { h, work } } else { ClientOp::Send { h, work } }
+        })
+        .boxed()
+}
+
 fn mixed_ops_boxed(base: BoxedStrategy<ClientOp>, extra: Vec<(u32, BoxedStrategy<ClientOp>)>) -> BoxedStrategy<ClientOp> {
     let total_extra: u32 = extra.iter().map(|e| e.0).sum();
     let mut alts = vec![(100u32.saturating_sub(total_extra).max(1), base)];
@@ -569,6 +579,7 @@ pub fn c05(big: bool) -> BoxedStrategy<Case> {
                                 (8, (0u8..2, any::<bool>()).prop_map(|(topic, st)| ClientOp::Publish { how: if st { PubHow::Static } else { PubHow::ViaAddr }, topic, id: 0 }).boxed()),
                                 // only meaningful for a stream-attached actor (its stream never ends: the handles decide)
                                 (4, (any::<u8>(), 0u8..4).prop_map(|(stream, n)| ClientOp::Feed { stream, n }).boxed()),
+                                (4, export_weak_op()),
                             ],
                         ),
                         2..=max_ops,
@@ -1025,7 +1036,7 @@ pub fn c15(big: bool) -> BoxedStrategy<Case> {
         1 => (mailbox(), any::<bool>()).prop_map(|(mailbox, owning)| SpawnSpec::Build { mailbox, strategy: RStrat::Recreate, timeout: None, fail_on_timeout: false, owning }),
     ];
     let base = OpWeights { send: 16, call: 16, ping: 2, convert: 22, yield_: 4, sleep: 14, give: 3, drop: 10, stop: 0, max_sleep: 10, ..MSG_WEIGHTS };
-    let op = mixed_ops(base, vec![(14, msg_op(1, 2, ctx_work(2, 1, 6))), (10, h().prop_map(|h| ClientOp::Upgrade { h }).boxed())]);
+    let op = mixed_ops(base, vec![(14, msg_op(1, 2, ctx_work(2, 1, 6))), (10, h().prop_map(|h| ClientOp::Upgrade { h }).boxed()), (6, export_weak_op())]);
     let timers = prop_oneof![
         1 => Just(vec![]),
         3 => vec((1u32..=12).prop_map(|ticks| Step::AddTimer(TimerSpec { kind: TimerKind::Interval, ticks, work: vec![] })), 1..=2),
